@@ -156,14 +156,14 @@ ADDENDA = {
  "C10": "Later additions: HBFs of 65 534 / 65 535 data pages (page counter at the edge of its 16 bits).",
  "C11": "Later additions: data words judged with a history (an earlier packet announced the complementary lane mask; own IHW with a reserved bit; offsets beyond 2^32; the word before has an unrecognised identifier), and identifier 0xF8 after the start of the data is an out-of-range data word.",
  "C12": "Later additions: the rejected payload is played twice on a link (second rejection resets like the first), positions beyond 2^32, the padding message through the real collector's sort. An all-0xFF word slot at every position but the last (word counts 3..12, both formats): it is a word, not padding.",
- "C13": "Later additions: fatal-lane frame sequences to depth 3 (4 thorough) plus a 4-frame family (each lane fatal in every order with repetition, then every fourth frame); custom files with only chip orders / only chip count; a CLI leg with messages shown and muted (923 cases); every second case is rendered with all TDT status flags set (transmission timeout, lane starts violation, the three timeouts). Fatal-lane memory across lane groups: after a fatal lane in one group, frames of two lanes of another group (54 five-frame cases).",
- "C14": "Later additions: report rows Links observed, FEE IDs seen (wrapped cells, '... N more'), Run Trigger Type, RDH Version, Data Format, System ID (all 20 known ids), Total HBFs, Data size with its parts, Layers/Staves, Filter RDHs; 12 / 80 / 300 distinct FEE ids; custom-check failures in view modes; 1 000 / 70 000 packets; in every case the code list equals the codes of the listed messages (each once) and total_errors the number of listed messages; every sequence of length 2..4 over two fault kinds on successive packets; every other case finds an older, longer statistics file at the destination. Streams in which every third packet belongs to another detector (system id 36) and some staves first occur in a later reader batch.",
- "C15": "Later additions: every second drift run also writes statistics; a second round trip writes again and the two files must be equal; every other job finds an older, longer statistics file at the destination. Every third perturbed file also claims not to be finalised (a hand-written file).",
- "C16": "Later additions: a matching / mismatching earlier statistics file (-i) x 7 display option sets; a trivial filter, stdin or -v 0 change nothing; check all its-stave on a stream with an ALPIDE lane bunch-counter mismatch in the option-pair lattice; two FEE ids on one link id in stave mode (unit after unit and alternating per HBF) with a lane fault on the first / second / both; the earlier statistics file under 11 spellings of its name (rejected before any output, or processed like the plainly named file). Code lists with a repeated code, reversed, one -w per code; every option of --help in its short form, long form, with =, with each documented alias and behind the sub-command (an accepted spelling behaves like the long form; a documented alias must be accepted).",
+ "C13": "Later additions: fatal-lane frame sequences to depth 3 (4 thorough) plus a 4-frame family (each lane fatal in every order with repetition, then every fourth frame); custom files with only chip orders / only chip count; a CLI leg with messages shown and muted (923 cases); every second case is rendered with all TDT status flags set (transmission timeout, lane starts violation, the three timeouts). Fatal-lane memory across lane groups: after a fatal lane in one group, frames of two lanes of another group (54 five-frame cases). BUSY ON / BUSY OFF words between chip frames in front of 0..3 padding bytes.",
+ "C14": "Later additions: report rows Links observed, FEE IDs seen (wrapped cells, '... N more'), Run Trigger Type, RDH Version, Data Format, System ID (all 20 known ids), Total HBFs, Data size with its parts, Layers/Staves, Filter RDHs; 12 / 80 / 300 distinct FEE ids; custom-check failures in view modes; 1 000 / 70 000 packets; in every case the code list equals the codes of the listed messages (each once) and total_errors the number of listed messages; every sequence of length 2..4 over two fault kinds on successive packets; every other case finds an older, longer statistics file at the destination. Streams in which every third packet belongs to another detector (system id 36) and some staves first occur in a later reader batch. The per-bit trigger counts quoted inside an [E9002] message equal the counters of the same statistics file (on trigger words whose neighbouring bits differ).",
+ "C15": "Later additions: every second drift run also writes statistics; a second round trip writes again and the two files must be equal; every other job finds an older, longer statistics file at the destination. Every third perturbed file also claims not to be finalised (a hand-written file). The verifying run may write the other format: json -> toml -> json (and the reverse) must hold and end where it started.",
+ "C16": "Later additions: a matching / mismatching earlier statistics file (-i) x 7 display option sets; a trivial filter, stdin or -v 0 change nothing; check all its-stave on a stream with an ALPIDE lane bunch-counter mismatch in the option-pair lattice; two FEE ids on one link id in stave mode (unit after unit and alternating per HBF) with a lane fault on the first / second / both; the earlier statistics file under 11 spellings of its name (rejected before any output, or processed like the plainly named file). Code lists with a repeated code, reversed, one -w per code; every option of --help in its short form, long form, with =, with each documented alias and behind the sub-command (an accepted spelling behaves like the long form; a documented alias must be accepted). A custom-check failure is reported whether or not an error cap cut the run short (-e 1 / 2 / 4 / 1000 x -w 9001).",
  "C17": "Later additions: fatal framing errors on the real binary (6 offset-to-next values x first / middle / last packet x 5 modes); in every scheduler execution the any-errors flag must equal 'something was reported' (vacuity guard: both kinds occur); the real-signal runs use -E 7 and the exit status after one signal is judged; the shim code itself is run under the scheduler against real crossbeam (every operation sequence to depth 4 / 5 x capacities 1, 2, unbounded x non-blocking and timed operations). A stop cause (signal, error cap) followed by a fatal framing error: the fatal error must be recorded whenever the RDHs read show that the reader ran into it; no thread may still be running when the main thread ends (a detached writer); closed-pipe cases with outputs of a few hundred bytes.",
  "C18": "Later additions: cuts around the reader's 100-packet batch boundaries of a 306-packet stream, cuts of large payloads, cuts combined with a failing custom-checks file.",
  "C19": "Later additions: every nibble value in identifier and flag positions, arbitrary header bytes in view rdh, the styled run reading from stdin. Every ordered (warning lane, error lane) pair over lanes 0, 1, 4, 5, 13, 26, 27 in TDT / DDW0. Options that mean nothing to a view (-o, -m, -E, -S) leave a 330-packet view unchanged; the styled views written to a pseudo-terminal of 200..40 columns (with and without COLUMNS) show the same tokens as into a pipe.",
- "C20": "Later additions: chip orders that are a prefix / an extension of the true ones; a custom file holding the true values changes nothing else (outer-layer and inner-barrel stave streams, clean and faulty, 3 modes, 4 key subsets). Every subset of >= 2 keys configured wrong as a whole (each failing check reported).",
+ "C20": "Later additions: chip orders that are a prefix / an extension of the true ones; a custom file holding the true values changes nothing else (outer-layer and inner-barrel stave streams, clean and faulty, 3 modes, 4 key subsets). Every subset of >= 2 keys configured wrong as a whole (each failing check reported). The same configuration in 9 other written forms (generated template with the hint left on the line, trailing comments, CRLF, key order, +, _, hex): accepted means the plain file's meaning; 8 files with a value its key cannot hold next to a wrong cdps: refused before the analysis or cdps still enforced; what every [E45] message quotes about its two TDHs (sequences over two orbits); every stave witness x catalogue fault with and without -p: the same messages apart from [E45].",
 }
 
 NOT_YET = {
